@@ -15,6 +15,23 @@ theorem snoc_of_ne_nil {α : Type} {l : List α} (h : l ≠ []) : ∃ init a, l 
   · exact absurd e h
   · exact ⟨i, b, by rw [e, List.concat_eq_append]⟩
 
+/-- the dictionary after the eviction of the previous owners of the path `ks` and of the id `oid` -/
+def EvictV (v : V) (ks : List Str) (oid : Option Oid) (W : V) : Prop :=
+  (truthy oid = false → W = rmV ks v) ∧
+  (∀ o, oid = some o → o ≠ 0 →
+    (∀ kx, HolderV (rmV ks v) o kx → W = rmV kx (rmV ks v)) ∧ ((∀ k, ¬ HolderV (rmV ks v) o k) → W = rmV ks v))
+
+/-- a one-entry dictionary -/
+def leafV (x : Ent) : V := fun r => if r = [] then some x else none
+
+theorem insertPre_evict {c : Cfg} (g : CfgGood c) {s : HC} {i : Nat} {ks : List Str} (hk : KsOk c ks) (hne : ks ≠ [])
+    (hc : Coherent c s) (hsub : Sub c s i)
+    (hroot : ∀ o, (s.nd i).oid = some o → o ≠ 0 → (s.nd 0).oid ≠ some o) :
+    EvictV (view s) ks (s.nd i).oid (view (insertPre c i (canon c.sep ks) s).1) := by
+  obtain ⟨h1, h2⟩ := insertPre_view g hk hne hc hsub hroot
+  exact ⟨fun hf => funext (h2 hf), fun o ho h0 =>
+    ⟨fun kx hh => funext ((h1 o ho h0).1 kx hh), fun hno => funext ((h1 o ho h0).2 hno)⟩⟩
+
 /-- **`__insert_node`** of a detached subtree at a non-root path; the node's id is not the root's -/
 theorem insertNode_spec {c : Cfg} (g : CfgGood c) {s : HC} {i : Nat} {ks : List Str} (hk : KsOk c ks) (hne : ks ≠ [])
     (hc : Coherent c s) (hsub : Sub c s i)
@@ -24,22 +41,28 @@ theorem insertNode_spec {c : Cfg} (g : CfgGood c) {s : HC} {i : Nat} {ks : List 
         (out.1.nd i).oid = (s.nd i).oid ∧ (out.1.nd i).type = (s.nd i).type ∧
         (∀ m, InSub s i m → (out.1.nd m).oid = (s.nd m).oid)) ∧ (ks.length ≤ f → out.2 ≠ .error .fuel) ∧
       (∀ q m, res out.1 q = some m →
-        (res s q = some m ∧ (out.1.nd m).oid = (s.nd m).oid) ∨ InSub s i m ∨ (out.1.nd m).oid = none) := by
+        (res s q = some m ∧ (out.1.nd m).oid = (s.nd m).oid) ∨ InSub s i m ∨ (out.1.nd m).oid = none) ∧
+      (out.2 = .ok () → view out.1 =
+        graftV ks (subview s i) (ensureV ks.dropLast (view (insertPre c i (canon c.sep ks) s).1))) ∧
+      (ks.length ≤ f → (s.nd i).oid ≠ some 0 → out.2 = .ok ()) ∧
+      (∀ m, m < s.heap.length → ¬ Reach s m → ¬ InSub s i m → out.1.nd m = s.nd m) ∧
+      (out.2 = .ok () → ∀ x, res s ks = some x → (out.1.nd x).parent = none ∧ (out.1.nd x).isRoot = (s.nd x).isRoot) := by
   intro f out hout
   cases f with
   | zero =>
     simp only [insertNode, raise_run] at hout
     subst hout
     exact ⟨hc, fun h => by simp at h, fun hl => absurd (List.length_eq_zero_iff.1 (Nat.le_zero.1 hl)) hne,
-      fun q m h => Or.inl ⟨h, rfl⟩⟩
+      fun q m h => Or.inl ⟨h, rfl⟩, fun h => by simp at h,
+      fun hl => absurd (List.length_eq_zero_iff.1 (Nat.le_zero.1 hl)) hne, fun _ _ _ _ => rfl, fun h => by simp at h⟩
   | succ f =>
     obtain ⟨init, a, rfl⟩ := snoc_of_ne_nil hne
     rw [insertNode_succ, bind_run] at hout
-    obtain ⟨dp, hok2, hnone2, hfresh2⟩ := insertPre_spec g hk hne hc hsub hroot _ rfl
+    obtain ⟨dp, hok2, hnone2, hfresh2, htgt2⟩ := insertPre_spec g hk hne hc hsub hroot _ rfl
     cases hpre : insertPre c i (canon c.sep (init ++ [a])) s with
     | mk s2 r2 =>
-      rw [hpre] at hout dp hok2 hnone2 hfresh2
-      simp only at dp hok2 hnone2 hfresh2
+      rw [hpre] at hout dp hok2 hnone2 hfresh2 htgt2
+      simp only at dp hok2 hnone2 hfresh2 htgt2
       subst hok2
       simp only at hout
       rw [bind_run, hsplit_canon_snoc g hk] at hout
@@ -48,11 +71,15 @@ theorem insertNode_spec {c : Cfg} (g : CfgGood c) {s : HC} {i : Nat} {ks : List 
       have hsub2 : Sub c s2 i := hsub.frame (dp.frameX (fun _ => False)) hE0 dp.idsub
       have hres2 : ∀ q, resFrom s2 i q = resFrom s i q := hsub.resFrom_frame (dp.frameX (fun _ => False)) hE0
       have hnd2 : ∀ m, InSub s i m → s2.nd m = s.nd m := fun m ⟨r, hr⟩ => dp.frame m (hsub.unreach r m hr)
-      obtain ⟨epb, hjb, hfb⟩ := ensurePar_spec g f s2 init hk.left dp.coh _ rfl
+      obtain ⟨epb, hjb, hfb, hvb, htb⟩ := ensurePar_spec g f s2 init hk.left dp.coh _ rfl
+      simp only [List.dropLast_concat]
       cases hens : ensurePar c f (canon c.sep init) s2 with
       | mk sb rb =>
-        rw [hens] at hout epb hjb hfb
-        simp only at epb hjb hfb
+        rw [hens] at hout epb hjb hfb hvb htb
+        simp only at epb hjb hfb hvb htb
+        have hframe_b : ∀ m, m < s.heap.length → ¬ Reach s2 m → sb.nd m = s2.nd m := fun m hm hr =>
+          epb.frameX.nd m (by rw [dp.len]; exact hm) hr (by rw [dp.len]; omega)
+        have hframe2 : ∀ m, ¬ Reach s m → s2.nd m = s.nd m := fun m hr => dp.frame m hr
         have hkeep_b : ∀ q m, res sb q = some m →
             (res s q = some m ∧ (sb.nd m).oid = (s.nd m).oid) ∨ (sb.nd m).oid = none := by
           intro q m h
@@ -64,7 +91,9 @@ theorem insertNode_spec {c : Cfg} (g : CfgGood c) {s : HC} {i : Nat} {ks : List 
         cases rb with
         | error e =>
           simp only at hout; subst hout
-          refine ⟨epb.coh, fun h => by simp at h, fun hl => by simpa using hfb (by simp at hl; omega), fun q m h => ?_⟩
+          refine ⟨epb.coh, fun h => by simp at h, fun hl => by simpa using hfb (by simp at hl; omega), fun q m h => ?_,
+            fun h => by simp at h, fun hl _ => by obtain ⟨j, hj⟩ := htb (by simp at hl; omega); simp at hj,
+            fun m hm hr _ => by rw [hframe_b m hm (fun h => hr (dp.reach h)), hframe2 m hr], fun h => by simp at h⟩
           rcases hkeep_b q m h with a1 | a1
           · exact Or.inl a1
           · exact Or.inr (Or.inr a1)
@@ -95,12 +124,61 @@ theorem insertNode_spec {c : Cfg} (g : CfgGood c) {s : HC} {i : Nat} {ks : List 
             intro hk'
             obtain ⟨e, he, rfl⟩ := List.mem_map.1 hk'
             exact this (List.mem_map.2 ⟨e, epb.idsub e he, rfl⟩)
-          obtain ⟨cp, hsucc, hnf⟩ := insertTail_spec g epb.coh hsubb hk (hjb j rfl) hnoneb hfreshb _ hout
+          obtain ⟨cp, hsucc, hnf, htot⟩ := insertTail_spec g epb.coh hsubb hk (hjb j rfl) hnoneb hfreshb _ hout
           have hresb : ∀ q, resFrom sb i q = resFrom s i q := fun q => by
             rw [hsub2.resFrom_frame epb.frameX hE, hres2]
+          have hvb' : view sb = ensureV init (view s2) := hvb j rfl
+          have hjdir : (sb.nd j).type = .dir := by
+            rw [← isDirE_view (hjb j rfl), hvb']
+            exact ensureV_isDir init _ (view_root dp.coh)
+          have hcore_frame : ∀ m, m < s.heap.length → ¬ Reach s2 m → ¬ InSub s i m → out.1.nd m = s2.nd m := by
+            intro m hm hr hin
+            have hmb : m < sb.heap.length := Nat.lt_of_lt_of_le (by rw [dp.len]; exact hm) epb.frameX.len
+            have hrb : ¬ Reach sb m := fun h => by
+              rcases epb.frameX.reach m (by rw [dp.len]; exact hm) h with a | a
+              · exact hr a
+              · rw [dp.len] at a; omega
+            have hinb : ¬ InSub sb i m := fun ⟨r, hr'⟩ => hin ⟨r, by rw [← hresb]; exact hr'⟩
+            rw [cp.frameX.nd m hmb hrb hinb, hframe_b m hm hr]
           refine ⟨cp.coh, fun h => ⟨(hsucc h).1, fun q => ?_, by rw [cp.fi.1, hndi], by rw [cp.fi.2, hndi], fun m hm => ?_⟩,
-            fun _ => hnf, fun q m h => ?_⟩
-          · rw [(hsucc h).2 q, hresb]
+            fun _ => hnf, fun q m h => ?_, fun h => ?_, fun _ hno0 => ?_,
+            fun m hm hr hin => by rw [hcore_frame m hm (fun h => hr (dp.reach h)) hin, hframe2 m hr],
+            fun _ x hx => by
+              obtain ⟨a1, a2⟩ := htgt2 x hx
+              have hxin : ¬ InSub s i x := fun ⟨r, hr'⟩ => hsub.unreach r x hr' ⟨_, hx⟩
+              rw [hcore_frame x (hc.valid ⟨_, hx⟩) a2 hxin]; exact ⟨a1, (dp.fields x).2.2.2⟩⟩
+          rotate_left 3
+          · -- the view: the subtree grafted at ks over the ensured parents
+            obtain ⟨_, _, hresc⟩ := hsucc h
+            rw [← hvb']
+            funext q
+            have hent : ∀ m, entOf out.1 m = entOf sb m := fun m => by
+              simp only [entOf, cp.type_same, cp.oid_same]
+            simp only [view, hresc q, graftV, subview]
+            by_cases hp : (init ++ [a]) <+: q
+            · rw [if_pos hp, if_pos hp, hresb]
+              cases hr : resFrom s i (q.drop (init ++ [a]).length) with
+              | none => rfl
+              | some m =>
+                simp only [Option.map_some, hent]
+                rw [show entOf sb m = entOf s m from by simp only [entOf, hndb m ⟨_, hr⟩]]
+            · rw [if_neg hp, if_neg hp]
+              cases hr : res sb q with
+              | none => rfl
+              | some m => simp only [Option.map_some, hent]
+          · -- totality
+            apply htot hjdir
+            rw [hndi]
+            cases hoi : (s.nd i).oid with
+            | none => exact Or.inl rfl
+            | some o =>
+              right
+              have h0 : o ≠ 0 := fun e => hno0 (by rw [hoi, e])
+              intro e
+              have := epb.coh.dget_idmap.2 ⟨⟨_, hjb j rfl⟩, e.symm, h0⟩
+              rw [hfreshb o (by rw [hndi]; exact hoi) h0] at this
+              simp at this
+          · rw [(hsucc h).2.1 q, hresb]
           · rw [cp.oid_same m, hndb m hm]
           · rcases cp.shrink q m h with b1 | ⟨r, _, hr⟩
             · rcases hkeep_b q m b1 with ⟨a1, a2⟩ | a1
@@ -117,7 +195,13 @@ theorem makeNode_spec {c : Cfg} (g : CfgGood c) {s : HC} (hc : Coherent c s) (ot
         (out.1.nd i).type = otype ∧ (∀ r, r ≠ [] → res out.1 (tcomps c path ++ r) = none) ∧ i = s.heap.length) ∧
       out.2 ≠ .error .fuel ∧
       (∀ q m, res out.1 q = some m →
-        (res s q = some m ∧ (out.1.nd m).oid = (s.nd m).oid) ∨ m = s.heap.length ∨ (out.1.nd m).oid = none) := by
+        (res s q = some m ∧ (out.1.nd m).oid = (s.nd m).oid) ∨ m = s.heap.length ∨ (out.1.nd m).oid = none) ∧
+      (∀ i, out.2 = .ok i → ∃ W, EvictV (view s) (tcomps c path) oid W ∧
+        view out.1 = graftV (tcomps c path) (leafV (otype, oid)) (ensureV (tcomps c path).dropLast W)) ∧
+      (oid ≠ some 0 → ∃ i, out.2 = .ok i) ∧
+      (∀ m, m < s.heap.length → ¬ Reach s m → out.1.nd m = s.nd m) ∧
+      (∀ i, out.2 = .ok i → ∀ x, res s (tcomps c path) = some x →
+        (out.1.nd x).parent = none ∧ (out.1.nd x).isRoot = (s.nd x).isRoot) := by
   intro out hout
   unfold makeNode at hout
   rw [makeNodeWith_run, normalizePath_tcomps g] at hout
@@ -142,10 +226,35 @@ theorem makeNode_spec {c : Cfg} (g : CfgGood c) {s : HC} (hc : Coherent c s) (ot
   cases hrun : insertNode c (insFuel (canon c.sep (tcomps c path))) s.heap.length (canon c.sep (tcomps c path))
       { s with heap := s.heap ++ [nnode] } with
   | mk t r =>
-    obtain ⟨hct, hsucc, hnf, hkeep0⟩ := hins _ _ hrun
-    have hnf' := hnf (by have := length_lt_canon (tcomps_ok g path); simp only [insFuel]; omega)
+    obtain ⟨hct, hsucc, hnf, hkeep0, hview0, htot0, hframe0, htgt0⟩ := hins _ _ hrun
+    have hfuel : (tcomps c path).length ≤ insFuel (canon c.sep (tcomps c path)) := by
+      have := length_lt_canon (tcomps_ok g path); simp only [insFuel]; omega
+    have hnf' := hnf hfuel
+    have htot' : oid ≠ some 0 → r = .ok () := fun h => htot0 hfuel (by rw [hnda, h2]; exact h)
+    have hev := insertPre_evict g (tcomps_ok g path) hne hca hsuba hfa
+    rw [view_alloc hc, hnda, h2] at hev
+    have hleaf : subview ({ s with heap := s.heap ++ [nnode] } : HC) s.heap.length = leafV (otype, oid) := by
+      funext r
+      cases r with
+      | nil => simp [subview, resFrom, leafV, entOf, hnda, h2, h4]
+      | cons k ks => simp [subview, resFrom, leafV, hnda, h1, dget]
     rw [hrun] at hout
-    simp only at hct hsucc hnf' hkeep0
+    simp only at hct hsucc hnf' hkeep0 hview0 hframe0 htgt0
+    have hframe : ∀ m, m < s.heap.length → ¬ Reach s m → t.nd m = s.nd m := by
+      intro m hm hr
+      rw [hframe0 m (by simp; omega) (fun h => hr ((reach_alloc hc nnode m).1 h)) ?_, nd_alloc]
+      · simp [Nat.ne_of_lt hm]
+      · rintro ⟨r, hr'⟩
+        cases r with
+        | nil => simp [resFrom] at hr'; omega
+        | cons k ks => simp [resFrom, hnda, h1, dget] at hr'
+    have htgt : r = .ok () → ∀ x, res s (tcomps c path) = some x →
+        (t.nd x).parent = none ∧ (t.nd x).isRoot = (s.nd x).isRoot := fun h x hx => by
+      obtain ⟨a1, a2⟩ := htgt0 h x (by rw [res_alloc hc]; exact hx)
+      refine ⟨a1, ?_⟩
+      rw [a2, nd_alloc]
+      have := hc.valid ⟨_, hx⟩
+      simp [Nat.ne_of_lt this]
     have hinsub : ∀ m, InSub ({ s with heap := s.heap ++ [nnode] } : HC) s.heap.length m → m = s.heap.length := by
       rintro m ⟨r, hr⟩
       cases r with
@@ -164,7 +273,10 @@ theorem makeNode_spec {c : Cfg} (g : CfgGood c) {s : HC} (hc : Coherent c s) (ot
       · exact Or.inr (Or.inl (hinsub m a))
       · exact Or.inr (Or.inr a)
     cases r with
-    | error e => simp only at hout; subst hout; exact ⟨hct, fun i h => by simp at h, by simpa using hnf', hkeep⟩
+    | error e =>
+      simp only at hout; subst hout
+      exact ⟨hct, fun i h => by simp at h, by simpa using hnf', hkeep, fun i h => by simp at h,
+        fun h => by have := htot' h; simp at this, hframe, fun i h => by simp at h⟩
     | ok u =>
       simp only at hout
       have hst := checkFull_state c s.heap.length t
@@ -174,11 +286,14 @@ theorem makeNode_spec {c : Cfg} (g : CfgGood c) {s : HC} (hc : Coherent c s) (ot
         rw [hcf] at hout hst hcnf
         simp only at hst hcnf
         subst hst
+        have hck := checkFull_ok g hct ⟨_, (hsucc rfl).1⟩
+        rw [hcf] at hck
         cases r' with
-        | error e => simp only at hout; subst hout; exact ⟨hct, fun i h => by simp at h, by simpa using hcnf, hkeep⟩
+        | error e => simp at hck
         | ok u' =>
           simp only at hout; subst hout
-          refine ⟨hct, fun i h => ?_, by simp, hkeep⟩
+          refine ⟨hct, fun i h => ?_, by simp, hkeep, fun i _ => ⟨_, hev, by rw [hview0 rfl, hleaf]⟩, fun _ => ⟨_, rfl⟩,
+            hframe, fun i _ => htgt rfl⟩
           cases h
           obtain ⟨a1, a2, a3, a4, _⟩ := hsucc rfl
           refine ⟨a1, by rw [a3, hnda, h2], by rw [a4, hnda, h4], fun r hr => ?_, rfl⟩
